@@ -367,6 +367,10 @@ def gen_dates(rng, n, span=(2451536.5, 2459216.5)):
 
 ATT_BASE = 1000000          # model code of the frames created with as_frame: ATT_BASE + running number; name "XF<n>"
 ATT_EXTRA = 14             # frames attached by the random histories of one process, on top of one per body
+_ORI = set()               # frames made with orientation="QSW"/"TNW"
+_EPH = set()               # frames made from an Ephem
+_EXH_ORI = {}              # body code -> oriented frame of the exhaustive plan
+_LIMIT = []                # number of frames in this process beyond which the random histories stop making new ones
 _ATT = []                   # every frame attached in this process so far: [x, link, obj, cen]
 _EXH = {}                   # body code -> code of the frame attached to its orbit by the exhaustive plan
 
@@ -412,6 +416,8 @@ class History:
         return name if self.rng.random() < 0.6 else get_frame(name)
 
     def out(self, tok, st, vec, **meta):
+        if tok[0] in ("offset", "center") and (tok[2] in _EPH or tok[3] in _EPH):
+            meta["loose"] = True        # an interpolated offset (exact at a node up to the rounding of the Lagrange weights)
         self.rec["ops"].append({"tok": [str(t) for t in tok], "st": st, "vec": vec, "meta": meta})
         return st
 
@@ -488,6 +494,7 @@ class History:
     def setframe(self, i, b):
         self.uncurl(i)
         try:
+            self.info[i]["loose"] = self.info[i]["loose"] or b in _EPH or self.info[i]["frame"] in _EPH
             self.objs[i].frame = self.frame_arg(b)
             self.info[i]["frame"] = b
             return self.out(["setframe", i, b], "ok", self.cart(self.objs[i]), loose=self.info[i]["loose"])
@@ -520,8 +527,9 @@ class History:
         try:
             o = self.objs[i].copy(frame=self.frame_arg(b))
             inf = self.info[i]
-            self.push(o, b, inf["obj"], inf["cen"], inf["k"], inf["loose"])
-            return self.out(["copy", i, b], "ok", self.cart(o), loose=inf["loose"])
+            loose = inf["loose"] or b in _EPH or inf["frame"] in _EPH
+            self.push(o, b, inf["obj"], inf["cen"], inf["k"], loose)
+            return self.out(["copy", i, b], "ok", self.cart(o), loose=loose)
         except Exception as ex:  # noqa: BLE001
             return self.out(["copy", i, b], status_of(ex), None)
 
@@ -545,22 +553,58 @@ class History:
         except Exception as ex:  # noqa: BLE001
             return self.out(["center", k, a, b], status_of(ex), None)
 
-    def asframe(self, i):
+    def asframe(self, i, variant=None):
+        """objs[i].as_frame(name) / orbit2frame(name, objs[i]); variants: a local orbital orientation (QSW, TNW: the centre
+        is the same, only conversions FROM the new frame are then requested, see oriented()), and the frame made from an
+        Ephem of the orbit whose nodes include the dates of this history (Ephem.as_frame: the offset is interpolated,
+        exactly at a node)"""
         from beyond.frames.frames import orbit2frame
         x = ATT_BASE + len(_ATT)
         name = f"XF{x - ATT_BASE}"
         o = self.objs[i]
+        inf = self.info[i]
+        variant = variant or "plain"
+        if variant in ("QSW", "TNW") and inf["obj"] == 399:
+            variant = "plain"       # the local orbital frame of the Earth's orbit about the Earth (the default parent) does not exist
+        link = inf["frame"]
         try:
-            if self.rng.random() < 0.5:
+            if variant == "ephem":
+                from beyond.dates import timedelta
+                nodes = set()
+                for d in self.dates:
+                    # the date itself is a node, four nodes on either side (the dates at the two ends of the kernel's
+                    # span leave 130 s of room)
+                    nodes.update(d + timedelta(seconds=20 * j) for j in range(-4, 5))
+                eph = o.ephem(dates=sorted(nodes))
+                link = self.code_of(str(eph.frame))        # the frame of the propagator, whatever the orbit's frame is now
+                if self.rng.random() < 0.5:
+                    eph.as_frame(name)
+                else:
+                    orbit2frame(name, eph)
+                _EPH.add(x)
+            elif variant in ("QSW", "TNW"):
+                if self.rng.random() < 0.5:
+                    o.as_frame(name, orientation=variant)
+                else:
+                    orbit2frame(name, o, orientation=variant)
+                _ORI.add(x)
+            elif self.rng.random() < 0.5:
                 o.as_frame(name)
             else:
                 orbit2frame(name, o)
         except Exception as ex:  # noqa: BLE001
-            return None, self.out(["asframe", i, x], status_of(ex), None)
-        inf = self.info[i]
-        _ATT.append([x, inf["frame"], inf["obj"], inf["cen"]])
-        self.out(["asframe", i, x], "ok", self.cart(o), loose=inf["loose"])
+            return None, self.out(["asframeeph" if variant == "ephem" else "asframe", i, x], status_of(ex), None, variant=variant)
+        if link in _EPH:
+            _EPH.add(x)         # hangs below an interpolated frame: only good at the dates of this history too
+        _ATT.append([x, link, inf["obj"], inf["cen"]])
+        self.out(["asframeeph" if variant == "ephem" else "asframe", i, x], "ok", self.cart(o), loose=inf["loose"], variant=variant)
         return x, "ok"
+
+
+def plain_frames():
+    """frames made from orbits that any later history of this process may use anywhere (not the ones with a local
+    orientation, not the ones made from an Ephem, whose nodes are the dates of one history)"""
+    return [a[0] for a in _ATT if a[0] not in _ORI and a[0] not in _EPH]
 
 
 def plan_exhaustive(e, rng, dates):
@@ -609,8 +653,41 @@ def plan_exhaustive(e, rng, dates):
             h.offset(k, a, b)
             h.read(i)
     recs.append(h.rec)
+    # the other ways of making a frame from an orbit, for a few bodies per run (all of them in the thorough tier):
+    # local orbital orientations (QSW / TNW) - the centre must be the body all the same; conversions from the new frame
+    # - and Ephem.as_frame with the dates of the history among the nodes, both ways
+    some = targets if len(dates) > 3 else rng.sample(targets, min(4, len(targets)))
+    h = History(e, rng, dates)
+    for n, a in enumerate(some):
+        if a not in _EXH_ORI:
+            if h.get(0, a) != "ok":
+                continue
+            x, st = h.asframe(len(h.objs) - 1, ("QSW", "TNW")[n % 2])
+            if st != "ok" or x not in _ORI:
+                continue
+            _EXH_ORI[a] = x
+        for k in range(nd):
+            for b in ids:
+                h.offset(k, _EXH_ORI[a], b)
+    recs.append(h.rec)
+    h = History(e, rng, dates)
+    for a in (targets if len(dates) > 3 else rng.sample(targets, min(3, len(targets)))):
+        if h.get(rng.randrange(nd), a) != "ok":
+            continue
+        if rng.random() < 0.5:
+            h.setframe(len(h.objs) - 1, rng.choice(ids))      # the Ephem comes from the propagator: same frame
+        x, st = h.asframe(len(h.objs) - 1, "ephem")
+        if st != "ok":
+            continue
+        for k in range(nd):
+            for b in ids:
+                h.offset(k, x, b)
+                h.offset(k, b, x)
+    recs.append(h.rec)
     for n, r in enumerate(recs):
         r["label"] = f"exhaustive-{n}"
+    if not _LIMIT:
+        _LIMIT.append(len(_ATT) + ATT_EXTRA)
     return recs
 
 
@@ -629,9 +706,12 @@ def plan_random(h, nops):
         r = rng.random()
         if mine and r < 0.25:
             return rng.choice(mine)
-        if _ATT and r < 0.3:
-            return rng.choice(_ATT)[0]
+        old = plain_frames()
+        if old and r < 0.3:
+            return rng.choice(old)
         return rng.choice(ids)
+
+    oriented = []
 
     for _ in range(nops):
         r = rng.random()
@@ -676,13 +756,16 @@ def plan_random(h, nops):
             h.offset(k, a, b)
         elif r < 0.92:
             h.center(rng.randrange(nd), anyframe(), anyframe())
-        elif len(_ATT) < len(targets) + ATT_EXTRA:
-            x, st = h.asframe(rng.randrange(n))
+        elif oriented and rng.random() < 0.5:
+            h.offset(rng.randrange(nd), rng.choice(oriented), anyframe())
+        elif len(_ATT) < (_LIMIT[0] if _LIMIT else len(targets) + ATT_EXTRA):
+            variant = rng.choice(["plain", "plain", "plain", "ephem", "QSW", "TNW"])
+            x, st = h.asframe(rng.randrange(n), variant)
             if st == "ok":
-                mine.append(x)
+                (oriented if x in _ORI else mine).append(x)
         else:
             # enough frames in this process (every one of them lengthens every later route search): use them
-            h.offset(rng.randrange(nd), rng.choice(_ATT)[0], anyframe())
+            h.offset(rng.randrange(nd), rng.choice(plain_frames() or ids), anyframe())
 
 
 def histories_here(e, seed, nrandom, nops, dates, exhaustive=True):
@@ -741,8 +824,10 @@ def spec_history(rec):
     raws = [{tuple(int(x) for x in key.split("-")): v for key, v in raw.items()} for raw in rec["raw"]]
     body = {}       # attached frame -> the body it is centred on
     bad = {}        # attached frames made from an orbit that was no longer in the frame of its propagator -> (link, obj, cen)
+    attinfo = {}    # every attached frame -> (link, obj, cen)
     for x, link, obj, cen in rec["att0"]:
         body[x] = obj
+        attinfo[x] = (link, obj, cen)
         if link != cen:
             bad[x] = (link, obj, cen)
 
@@ -750,9 +835,10 @@ def spec_history(rec):
         ta = a in bad or b in bad
         extra = [0.0] * 6
         for x in (a, b):
-            # a repaired orbit2frame reaches such a frame through link -> cen -> obj: its rounding scales with those terms
-            if x in bad:
-                link, obj, cen = bad[x]
+            # a frame made from an orbit is reached through link -> cen -> obj: the rounding scales with those terms
+            # (the answer itself may cancel: the frame of the orbit of b seen from b)
+            if x in attinfo:
+                link, obj, cen = attinfo[x]
                 for u, w in ((body.get(link, link), cen), (obj, cen)):
                     m = chain_direct(pairs, raws[k], u, w)[1]
                     extra = [p + q for p, q in zip(extra, m or extra)]
@@ -804,12 +890,14 @@ def spec_history(rec):
         elif name in ("offset", "center"):
             v, m, ta = rel(int(t[1]), int(t[2]), int(t[3]))
             res.append((v, m, ta))
-        elif name == "asframe":
+        elif name in ("asframe", "asframeeph"):
             o = objs[int(t[1])]
             x = int(t[2])
             body[x] = o["obj"]
-            if o["frame"] != o["cen"]:
-                bad[x] = (o["frame"], o["obj"], o["cen"])
+            link = o["cen"] if name == "asframeeph" else o["frame"]
+            attinfo[x] = (link, o["obj"], o["cen"])
+            if link != o["cen"]:
+                bad[x] = attinfo[x]
             res.append((o["vec"], o["mag"], o["taint"]))
         else:
             raise RuntimeError("unknown request " + name)
@@ -866,7 +954,7 @@ def oracle_histories(out, recs, family=None):
                     fam = f"spk-hist-{name}-{sub}-after-{last_mut}"
                 out.fail(fam, f"request '{' '.join(op['tok'])}' (request {n} of the history) does not return the chained segments (components {bad})",
                          history_input(rec, n), observed=op["vec"], expected=exp)
-            if name in ("setframe", "setform", "setval", "asframe"):
+            if name in ("setframe", "setform", "setval", "asframe", "asframeeph"):
                 last_mut = name
 
 
